@@ -83,7 +83,7 @@ def _run(ctx):
         for vi, v in sorted(vars_.items()):
             pl = rows.get(vi)
             if pl is None:
-                pl = dflt if (excl is not None and vi not in excl) else []
+                pl = dflt.for_value(vi) if excl is not None else []
             got = sorted(set(util.variant_name(p.ret) or absint.term_str(p.ret) for p in pl))
             own_table[v["name"]] = got[0] if len(got) == 1 else None
             ctx.ob("C06.variant", "Shape::%s" % v["name"], got == [v["name"]],
